@@ -80,7 +80,10 @@ var units = []unit{
 		},
 		externs: map[string]bool{"net": true, "math.frombits": true, "strconv.Itoa": true}},
 	{out: "SamplerSrc", pkgDir: ".", files: []string{"sampler.go"}, only: []string{"Sample", "inc"},
-		stateStructs: []string{"BasicSampler", "BurstSampler"}, clockVars: map[string]bool{"TimestampFunc": true},
+		imports: "Base.GoEff Base.GoExt", section: "Variable ans : nat -> oval.",
+		stateStructs: []string{"BasicSampler", "BurstSampler", "LevelSampler"}, clockVars: map[string]bool{"TimestampFunc": true},
+		opaque: map[string][]string{"BurstSampler": {"NextSampler"},
+			"LevelSampler": {"TraceSampler", "DebugSampler", "InfoSampler", "WarnSampler", "ErrorSampler"}},
 		externs: map[string]bool{"atomic": true}},
 	{out: "GateSrc", pkgDir: ".", files: []string{"log.go", "globals.go"}, only: []string{"should", "GlobalLevel", "samplingDisabled"},
 		imports: "Base.GoEff Base.GoExt", section: "Variable env_gLevel : Z.\nVariable env_disableSampling : Z.\nVariable ans : nat -> oval.",
